@@ -164,8 +164,8 @@ impl Inner {
         // SAFETY: Validity — `self.state` is an `UnsafeCell` field of `self` that
         // outlives this borrow. Aliasing — `Inner: !Send` excludes other threads; the
         // borrow is held only while invoking internal `&mut AwaiterSet` methods (no
-        // user code runs), so no nested or reentrant access can construct an aliasing
-        // reference.
+        // user code runs: `register` returns the displaced waker instead of dropping
+        // it), so no nested or reentrant access can construct an aliasing reference.
         let state = unsafe { &mut *self.state.get() };
 
         match state {
@@ -181,9 +181,10 @@ impl Inner {
                 // Register or update the waker.
                 // SAFETY: Single-threaded, awaiter is pinned and
                 // lives as long as the future.
-                unsafe {
-                    waiters.register(awaiter.as_mut(), waker);
-                }
+                let displaced = unsafe { waiters.register(awaiter.as_mut(), waker) };
+                // Dropping a waker runs user code that may call back into this
+                // event; the `state` borrow is not used past this point.
+                drop(displaced);
                 Poll::Pending
             }
         }
@@ -232,15 +233,17 @@ impl Inner {
             // SAFETY: Validity — `self.state` is an `UnsafeCell` field of `self` that
             // outlives this borrow. Aliasing — `Inner: !Send` excludes other threads,
             // and the borrow is held only while invoking `AwaiterSet::unregister`,
-            // which runs no user code.
+            // which runs no user code: it returns the removed waker instead of
+            // dropping it.
             let state = unsafe { &mut *self.state.get() };
             match state {
                 InnerState::Unset(waiters) => {
                     // SAFETY: Single-threaded, awaiter is registered in
                     // this set.
-                    unsafe {
-                        waiters.unregister(awaiter.as_mut());
-                    }
+                    let waker = unsafe { waiters.unregister(awaiter.as_mut()) };
+                    // Dropping a waker runs user code that may call back into
+                    // this event; the `state` borrow is not used past this point.
+                    drop(waker);
                 }
                 InnerState::Set => {
                     // Not notified + registered ⟹ node is in a
